@@ -918,6 +918,10 @@ func runC10(c *explore.Ctx) {
 		// two in-flight entries whose identifiers are not in list order (a lower id was handed
 		// out again behind a higher one)
 		{opInitClean, opRI1, 1, 1, opRead2, opRemOld, 1, opRead1},
+		// a Read is blocked on a queue that is full of in-flight entries which then expire: the
+		// Add that replaces one of them has to wake it
+		{opInitClean, opRI1, 1, opRead1, opRead1, opAdv31},
+		{opInitClean, opRI1, 3, opRead1, opRead1, opAdv6},
 	}
 	// redis backend: same alphabet, reference and oracles; the "private list" is the
 	// redis list itself (read from the RESP server's memory after every op)
